@@ -162,6 +162,15 @@ func (w *World) Start(c *vexp.Cmd) error {
 		w.ev("start-failed p%d %s", p.ID, p.Cmdline)
 		return errors.New("exec: fail-start: executable file not found")
 	}
+	if ctx := c.Ctx(); ctx != nil {
+		// like os/exec: a command whose context is already done is not started
+		select {
+		case <-ctx.Done():
+			w.ev("start-refused-ctx-done p%d", p.ID)
+			return ctx.Err()
+		default:
+		}
+	}
 	p.Started = true
 	w.ev("start p%d %s", p.ID, p.Cmdline)
 	// like os/exec: a Stdout/Stderr that is not an *os.File gets a pipe + copy goroutine in the parent
